@@ -95,7 +95,7 @@ Section Facts.
     parse_single (op ++ a) =
       if beq op $"~=" then parse_compatible vok a
       else if (beq op $"==" || beq op $"!=") && has_suffix $".*" a then parse_wildcard vok op a
-      else Some [(op, a)].
+      else Some [plain op a].
   Proof.
     intros Hin Hs. destruct (op_text_facts op a Hin Hs) as (_ & Hns' & _).
     destruct (in_scope_elim a Hs) as (Hne & Hhd & Hns & _).
@@ -105,7 +105,7 @@ Section Facts.
   Qed.
 
   Lemma parse_single_bare a :
-    in_scope a = true -> parse_single a = Some [($"==", a)].
+    in_scope a = true -> parse_single a = Some [plain $"==" a].
   Proof.
     intros Hs. destruct (in_scope_elim a Hs) as (Hne & Hhd & Hns & _).
     unfold Range.parse_single. rewrite (trim_space_no_space a Hns).
@@ -134,7 +134,7 @@ Section Facts.
     assert (Hin' : In op pypi_ops).
     { simpl in Hin. simpl. tauto. }
     destruct (op_text_facts op a Hin' Hs) as (Hne & Hns & Hc).
-    assert (Hp : parse_single (op ++ a) = Some [(op, a)]).
+    assert (Hp : parse_single (op ++ a) = Some [plain op a]).
     { rewrite (parse_single_op op a Hin' Hs), Hw, andb_false_r.
       simpl in Hin. repeat (destruct Hin as [<-|Hin]; [reflexivity|]). contradiction. }
     rewrite (rcontains_of _ _ v (parse_range_single _ _ Hne Hns Hc Hp) Hv).
@@ -160,7 +160,7 @@ Section Facts.
     intros Hs Hv.
     assert (Hin : In $"===" pypi_ops) by (simpl; tauto).
     destruct (op_text_facts _ a Hin Hs) as (Hne & Hns & Hc).
-    assert (Hp : parse_single ($"===" ++ a) = Some [($"===", a)]).
+    assert (Hp : parse_single ($"===" ++ a) = Some [plain $"===" a]).
     { rewrite (parse_single_op _ a Hin Hs). reflexivity. }
     rewrite (rcontains_of _ _ v (parse_range_single _ _ Hne Hns Hc Hp) Hv).
     unfold Range.contains, matches. simpl. apply f_equal, andb_true_r.
@@ -172,24 +172,26 @@ Section Facts.
     (vok lo && sat (sem lo_op) (vcmp v lo)) && (vok hi && sat (sem hi_op) (vcmp v hi)).
 
   Lemma contains_two r o1 b1 o2 b2 v :
-    r_cs r = [(o1, b1); (o2, b2)] ->
+    r_cs r = [plain o1 b1; plain o2 b2] ->
     beq o1 $"===" = false -> beq o2 $"===" = false ->
+    beq o1 $"!=*" = false -> beq o2 $"!=*" = false ->
     contains r v = bounded o1 b1 o2 b2 v.
   Proof.
-    intros E H1 H2. unfold Range.contains, matches, bounded. rewrite E. cbn [forallb fst snd].
-    rewrite H1, H2, andb_true_r.
+    intros E H1 H2 H3 H4. unfold Range.contains, matches, bounded. rewrite E.
+    cbn [forallb plain c_op c_ver c_upper].
+    rewrite H1, H2, H3, H4, andb_true_r.
     destruct (vok b1); destruct (vok b2); reflexivity.
   Qed.
 
-  Theorem c05_compatible a rel up v :
-    in_scope a = true -> release_of vok a = Some rel -> compatible_upper rel = Some up ->
+  Theorem c05_compatible a ep rel up v :
+    in_scope a = true -> fields_of vok a = Some (ep, rel) -> compatible_upper ep rel = Some up ->
     vok v = true ->
     rcontains ($"~=" ++ a) v = Some (bounded $">=" a $"<" up v).
   Proof.
     intros Hs Hrel Hup Hv.
     assert (Hin : In $"~=" pypi_ops) by (simpl; tauto).
     destruct (op_text_facts _ a Hin Hs) as (Hne & Hns & Hc).
-    assert (Hp : parse_single ($"~=" ++ a) = Some [($">=", a); ($"<", up)]).
+    assert (Hp : parse_single ($"~=" ++ a) = Some [plain $">=" a; plain $"<" up]).
     { rewrite (parse_single_op _ a Hin Hs). change (beq $"~=" $"~=") with true. cbv iota.
       unfold parse_compatible. rewrite Hrel, Hup. reflexivity. }
     rewrite (rcontains_of _ _ v (parse_range_single _ _ Hne Hns Hc Hp) Hv).
@@ -198,7 +200,7 @@ Section Facts.
 
   (* an unparsable bound makes ~= an error *)
   Theorem c05_compatible_reject a v :
-    in_scope a = true -> release_of vok a = None -> rcontains ($"~=" ++ a) v = None.
+    in_scope a = true -> fields_of vok a = None -> rcontains ($"~=" ++ a) v = None.
   Proof.
     intros Hs Hrel.
     assert (Hin : In $"~=" pypi_ops) by (simpl; tauto).
@@ -209,24 +211,19 @@ Section Facts.
     apply rcontains_none. apply (parse_range_single_none _ Hne Hns Hc Hp).
   Qed.
 
-  (* ---------- C05: ==B.* and !=B.* ---------- *)
+  (* ---------- C05: ==B.* is the prefix interval, !=B.* its complement ---------- *)
 
-  Lemma wildcard_text_facts op B :
-    In op pypi_ops -> in_scope (B ++ $".*") = true ->
-    has_suffix $".*" (B ++ $".*") = true /\ trim_suffix $".*" (B ++ $".*") = B.
-  Proof. intros _ _. split; [apply has_suffix_app|apply trim_suffix_app]. Qed.
-
-  Theorem c05_wildcard_eq B a b rest v :
+  Theorem c05_wildcard_eq B ep rel v :
     in_scope (B ++ $".*") = true ->
-    release_of vok (B ++ $".0") = Some (a :: b :: rest) -> vok v = true ->
+    fields_of vok B = Some (ep, rel) -> vok v = true ->
     rcontains ($"==" ++ B ++ $".*") v =
-      Some (bounded $">=" (fmt3 (dec_z a) (dec_z b)) $"<" (fmt3 (dec_z a) (dec_z (inc b))) v).
+      Some (bounded $">=" (wildcard_lower ep rel) $"<" (wildcard_upper ep rel) v).
   Proof.
     intros Hs Hrel Hv.
     assert (Hin : In $"==" pypi_ops) by (simpl; tauto).
     destruct (op_text_facts _ _ Hin Hs) as (Hne & Hns & Hc).
     assert (Hp : parse_single ($"==" ++ B ++ $".*") =
-                 Some [($">=", fmt3 (dec_z a) (dec_z b)); ($"<", fmt3 (dec_z a) (dec_z (inc b)))]).
+                 Some [plain $">=" (wildcard_lower ep rel); plain $"<" (wildcard_upper ep rel)]).
     { rewrite (parse_single_op _ _ Hin Hs). rewrite has_suffix_app.
       change (beq $"==" $"~=") with false. change (beq $"==" $"==") with true. cbv iota. simpl orb. cbv iota.
       unfold parse_wildcard. rewrite trim_suffix_app, Hrel. reflexivity. }
@@ -234,61 +231,79 @@ Section Facts.
     apply f_equal. apply contains_two; reflexivity.
   Qed.
 
-  (* release of length 1 (only reachable through a local label, e.g. "==1+a.*" ) *)
-  Theorem c05_wildcard_eq_1 B a v :
+  (* v < lower  OR  v >= upper  (one constraint, so that the comma-AND does not apply) *)
+  Theorem c05_wildcard_ne B ep rel v :
     in_scope (B ++ $".*") = true ->
-    release_of vok (B ++ $".0") = Some [a] -> vok v = true ->
-    rcontains ($"==" ++ B ++ $".*") v =
-      Some (bounded $">=" (fmt3 (dec_z a) $"0") $"<" (fmt3 (dec_z (inc a)) $"0") v).
-  Proof.
-    intros Hs Hrel Hv.
-    assert (Hin : In $"==" pypi_ops) by (simpl; tauto).
-    destruct (op_text_facts _ _ Hin Hs) as (Hne & Hns & Hc).
-    assert (Hp : parse_single ($"==" ++ B ++ $".*") =
-                 Some [($">=", fmt3 (dec_z a) $"0"); ($"<", fmt3 (dec_z (inc a)) $"0")]).
-    { rewrite (parse_single_op _ _ Hin Hs). rewrite has_suffix_app.
-      change (beq $"==" $"~=") with false. change (beq $"==" $"==") with true. cbv iota. simpl orb. cbv iota.
-      unfold parse_wildcard. rewrite trim_suffix_app, Hrel. reflexivity. }
-    rewrite (rcontains_of _ _ v (parse_range_single _ _ Hne Hns Hc Hp) Hv).
-    apply f_equal. apply contains_two; reflexivity.
-  Qed.
-
-  (* !=B.* is the CONJUNCTION  <lower AND >=upper  *)
-  Theorem c05_wildcard_ne B a b rest v :
-    in_scope (B ++ $".*") = true ->
-    release_of vok (B ++ $".0") = Some (a :: b :: rest) -> vok v = true ->
+    fields_of vok B = Some (ep, rel) -> vok v = true ->
     rcontains ($"!=" ++ B ++ $".*") v =
-      Some (bounded $"<" (fmt3 (dec_z a) (dec_z b)) $">=" (fmt3 (dec_z a) (dec_z (inc b))) v).
+      Some (vok (wildcard_lower ep rel) && vok (wildcard_upper ep rel)
+            && (sat CLt (vcmp v (wildcard_lower ep rel)) || sat CGe (vcmp v (wildcard_upper ep rel)))).
   Proof.
     intros Hs Hrel Hv.
     assert (Hin : In $"!=" pypi_ops) by (simpl; tauto).
     destruct (op_text_facts _ _ Hin Hs) as (Hne & Hns & Hc).
     assert (Hp : parse_single ($"!=" ++ B ++ $".*") =
-                 Some [($"<", fmt3 (dec_z a) (dec_z b)); ($">=", fmt3 (dec_z a) (dec_z (inc b)))]).
+                 Some [mkc $"!=*" (wildcard_lower ep rel) (wildcard_upper ep rel)]).
     { rewrite (parse_single_op _ _ Hin Hs). rewrite has_suffix_app.
       change (beq $"!=" $"~=") with false. change (beq $"!=" $"==") with false.
       change (beq $"!=" $"!=") with true. cbv iota. simpl orb. cbv iota.
       unfold parse_wildcard. rewrite trim_suffix_app, Hrel.
       change (beq $"!=" $"==") with false. change (beq $"!=" $"!=") with true. reflexivity. }
     rewrite (rcontains_of _ _ v (parse_range_single _ _ Hne Hns Hc Hp) Hv).
-    apply f_equal. apply contains_two; reflexivity.
+    apply f_equal. unfold Range.contains, matches. cbn [r_cs forallb c_op c_ver c_upper].
+    change (beq $"!=*" $"===") with false. change (beq $"!=*" $"!=*") with true. cbv iota.
+    rewrite andb_true_r.
+    destruct (vok (wildcard_lower ep rel)); destruct (vok (wildcard_upper ep rel)); reflexivity.
   Qed.
 
-  (* ... hence empty whenever lower < upper: !=1.2.* excludes everything (finding) *)
-  Theorem wildcard_ne_empty lo hi v :
-    TotalPreorder vcmp -> vcmp lo hi = Lt -> bounded $"<" lo $">=" hi v = false.
+  (* the sign tests of the two forms are complementary *)
+  Lemma sat_complement c1 c2 : sat CLt c1 || sat CGe c2 = negb (sat CGe c1 && sat CLt c2).
+  Proof. destruct c1; destruct c2; reflexivity. Qed.
+
+  (* !=B.* contains exactly what ==B.* does not, when both printed bounds parse *)
+  Corollary c05_wildcard_complement B ep rel v :
+    in_scope (B ++ $".*") = true ->
+    fields_of vok B = Some (ep, rel) -> vok v = true ->
+    vok (wildcard_lower ep rel) = true -> vok (wildcard_upper ep rel) = true ->
+    rcontains ($"!=" ++ B ++ $".*") v = option_map negb (rcontains ($"==" ++ B ++ $".*") v).
   Proof.
-    intros TP Hlt. unfold bounded.
-    destruct (vok lo); [|reflexivity]. destruct (vok hi); [|apply andb_false_r]. simpl.
-    destruct (vcmp v lo) eqn:E1; simpl; try reflexivity.
-    (* v < lo < hi, so v < hi *)
-    rewrite (tp_trans TP v lo hi E1 Hlt). reflexivity.
+    intros Hs Hrel Hv Hlo Hup.
+    rewrite (c05_wildcard_ne B ep rel v Hs Hrel Hv), (c05_wildcard_eq B ep rel v Hs Hrel Hv).
+    unfold bounded. rewrite Hlo, Hup. cbn [option_map andb]. rewrite sat_complement. reflexivity.
+  Qed.
+
+  (* an unparsable prefix makes both forms an error *)
+  Theorem c05_wildcard_reject op B v :
+    op = $"==" \/ op = $"!=" ->
+    in_scope (B ++ $".*") = true -> fields_of vok B = None ->
+    rcontains (op ++ B ++ $".*") v = None.
+  Proof.
+    intros Hop Hs Hrel.
+    assert (Hin : In op pypi_ops) by (destruct Hop as [->| ->]; simpl; tauto).
+    destruct (op_text_facts _ _ Hin Hs) as (Hne & Hns & Hc).
+    assert (Hp : parse_single (op ++ B ++ $".*") = None).
+    { rewrite (parse_single_op _ _ Hin Hs). rewrite has_suffix_app.
+      unfold parse_wildcard. rewrite trim_suffix_app, Hrel.
+      destruct Hop as [->| ->]; reflexivity. }
+    apply rcontains_none. apply (parse_range_single_none _ Hne Hns Hc Hp).
   Qed.
 
   (* ---------- C20 ---------- *)
 
   Definition no_arbitrary_eq (cs : list constraint) : bool :=
-    forallb (fun c => negb (beq (fst c) $"===")) cs.
+    forallb (fun c => negb (beq (c_op c) $"===")) cs.
+
+  Lemma matches_eq a b c :
+    TotalPreorder vcmp -> vcmp a b = Eq ->
+    beq (c_op c) $"===" = false \/ trim_space a = trim_space b ->
+    matches vok vcmp a c = matches vok vcmp b c.
+  Proof.
+    intros TP E H. unfold matches.
+    destruct (beq (c_op c) $"===") eqn:Eo.
+    - destruct H as [H|H]; [discriminate|]. rewrite H. reflexivity.
+    - destruct (vok (c_ver c)); [|reflexivity].
+      rewrite (tp_eq_l TP a b (c_ver c) E), (tp_eq_l TP a b (c_upper c) E). reflexivity.
+  Qed.
 
   Theorem c20_eq r a b :
     TotalPreorder vcmp -> no_arbitrary_eq (r_cs r) = true ->
@@ -297,9 +312,7 @@ Section Facts.
     intros TP Hn E. unfold Range.contains. unfold no_arbitrary_eq in Hn.
     induction (r_cs r) as [|c cs IH]; [reflexivity|].
     cbn [forallb] in Hn. apply andb_true_iff in Hn. destruct Hn as [Hc Hn]. apply negb_true_iff in Hc.
-    cbn [forallb]. rewrite (IH Hn). f_equal.
-    unfold matches. rewrite Hc. destruct (vok (snd c)); [|reflexivity].
-    rewrite (tp_eq_l TP a b (snd c) E). reflexivity.
+    cbn [forallb]. rewrite (IH Hn). f_equal. apply matches_eq; auto.
   Qed.
 
   (* with === constraints, Compare-equal versions must also print the same *)
@@ -309,15 +322,13 @@ Section Facts.
   Proof.
     intros TP Ht E. unfold Range.contains.
     induction (r_cs r) as [|c cs IH]; [reflexivity|].
-    cbn [forallb]. rewrite IH. f_equal.
-    unfold matches. rewrite Ht. destruct (beq (fst c) $"==="); [reflexivity|].
-    destruct (vok (snd c)); [|reflexivity].
-    rewrite (tp_eq_l TP a b (snd c) E). reflexivity.
+    cbn [forallb]. rewrite IH. f_equal. apply matches_eq; auto.
   Qed.
 
-  (* conjunctions without != and === are convex *)
+  (* conjunctions without !=, !=X.* and === are convex *)
   Definition convex_cs (cs : list constraint) : bool :=
-    forallb (fun c => negb (beq (fst c) $"===") && convex_op (sem (fst c))) cs.
+    forallb (fun c => negb (beq (c_op c) $"===") && negb (beq (c_op c) $"!=*")
+                      && convex_op (sem (c_op c))) cs.
 
   Theorem c20_convex r a b c :
     TotalPreorder vcmp -> convex_cs (r_cs r) = true ->
@@ -327,17 +338,16 @@ Section Facts.
     intros TP Hcv Hab Hbc. unfold Range.contains, convex_cs in *.
     induction (r_cs r) as [|k cs IH]; cbn [forallb] in *; [reflexivity|].
     apply andb_true_iff in Hcv. destruct Hcv as [Hk Hcv].
-    apply andb_true_iff in Hk. destruct Hk as [Hk1 Hk2]. apply negb_true_iff in Hk1.
+    apply andb_true_iff in Hk. destruct Hk as [Hk1 Hk3].
+    apply andb_true_iff in Hk1. destruct Hk1 as [Hk1 Hk2].
+    apply negb_true_iff in Hk1. apply negb_true_iff in Hk2.
     rewrite !andb_true_iff. intros [Ha1 Ha2] [Hc1 Hc2]. split; [|apply IH; assumption].
-    unfold matches in *. rewrite Hk1 in *. destruct (vok (snd k)); [|discriminate].
-    apply (sat_convex bytes vcmp TP _ (snd k) a b c); assumption.
+    unfold matches in *. rewrite Hk1, Hk2 in *. destruct (vok (c_ver k)); [|discriminate].
+    apply (sat_convex bytes vcmp TP _ (c_ver k) a b c); assumption.
   Qed.
 End Facts.
 
 (* ---------- the shapes of the desugared bounds ---------- *)
-
-Lemma compatible_upper_1 a : compatible_upper [a] = Some (dec_z (inc a) ++ $".0").
-Proof. reflexivity. Qed.
 
 Lemma bump_init_snoc2 pre a b : bump_init (pre ++ [a; b]) = map dec_z pre ++ [dec_z (inc a)].
 Proof.
@@ -349,16 +359,31 @@ Proof.
   rewrite IH. reflexivity.
 Qed.
 
-(* ~=p1...pk.a.b has the upper bound p1...pk.(a+1).0 : the last segment is dropped and the one
-   before it incremented; epoch, pre-, post-, dev- and local parts of V do not appear in it *)
-Lemma compatible_upper_n pre a b :
-  compatible_upper (pre ++ [a; b]) = Some (join $"." (map dec_z pre ++ [dec_z (inc a)]) ++ $".0").
+Lemma bump_last_snoc pre a : bump_last (pre ++ [a]) = map dec_z pre ++ [dec_z (inc a)].
+Proof.
+  induction pre as [|x pre IH]; [reflexivity|].
+  assert (exists y l, pre ++ [a] = y :: l) as (y & l & E).
+  { destruct pre as [|y pre]; simpl; eauto. }
+  cbn [app map]. rewrite E in *.
+  change (bump_last (x :: y :: l)) with (dec_z x :: bump_last (y :: l)).
+  rewrite IH. reflexivity.
+Qed.
+
+Lemma compatible_upper_1 ep a :
+  compatible_upper ep [a] = Some (epoch_prefix ep ++ dec_z (inc a) ++ $".0").
+Proof. reflexivity. Qed.
+
+(* ~=p1...pk.a.b has the upper bound E!p1...pk.(a+1).0 : the last segment is dropped and the
+   one before it incremented, in the epoch of the base *)
+Lemma compatible_upper_n ep pre a b :
+  compatible_upper ep (pre ++ [a; b]) =
+  Some (epoch_prefix ep ++ join $"." (map dec_z pre ++ [dec_z (inc a)]) ++ $".0").
 Proof.
   unfold compatible_upper. rewrite bump_init_snoc2.
   destruct pre as [|x pre]; [reflexivity|]. destruct pre; reflexivity.
 Qed.
 
-(* ---------- the shorthands on plain numeric tuples ---------- *)
+(* ---------- the shorthands on plain numeric tuples, with an optional epoch ---------- *)
 
 Lemma join_snoc sep l x : l <> [] -> join sep (l ++ [x]) = join sep l ++ sep ++ x.
 Proof.
@@ -380,24 +405,34 @@ Qed.
 Lemma dotted_snoc0 t : t <> [] -> dotted t ++ $".0" = dotted (t ++ [0%N]).
 Proof. intros Ht. rewrite dotted_snoc by assumption. reflexivity. Qed.
 
-Lemma rel_char_plain c : is_rel_char c = true -> is_space c = false /\ ceqb ","%char c = false.
+Lemma dotted_of_Z t : join $"." (map dec_z (map Z.of_N t)) = dotted t.
 Proof.
-  unfold is_rel_char. intros H. apply orb_true_iff in H. destruct H as [H|H].
-  - split.
-    + unfold is_digit, is_space, in_range in *. generalize dependent (code c). intros n Hn.
-      destruct (N.leb_spec 48 n); [|discriminate].
-      destruct (N.eqb_spec n 32); [lia|]. destruct (N.leb_spec 9 n); [|reflexivity].
-      destruct (N.leb_spec n 13); [lia|reflexivity].
-    + destruct (ceqb "," c) eqn:E; [|reflexivity]. apply ceqb_eq in E. subst. discriminate.
+  unfold dotted. rewrite map_map. f_equal. apply map_ext. intros n. apply dec_z_of_N.
+Qed.
+
+(* digits, dots and the epoch mark: the bytes of  E!a.b.c  *)
+Definition is_ver_char (c : ascii) : bool := is_rel_char c || ceqb c "!"%char.
+
+Lemma ver_char_plain c : is_ver_char c = true -> is_space c = false /\ ceqb ","%char c = false.
+Proof.
+  unfold is_ver_char, is_rel_char. intros H. apply orb_true_iff in H. destruct H as [H|H].
+  - apply orb_true_iff in H. destruct H as [H|H].
+    + split.
+      * unfold is_digit, is_space, in_range in *. generalize dependent (code c). intros n Hn.
+        destruct (N.leb_spec 48 n); [|discriminate].
+        destruct (N.eqb_spec n 32); [lia|]. destruct (N.leb_spec 9 n); [|reflexivity].
+        destruct (N.leb_spec n 13); [lia|reflexivity].
+      * destruct (ceqb "," c) eqn:E; [|reflexivity]. apply ceqb_eq in E. subst. discriminate.
+    + apply ceqb_eq in H. subst. split; reflexivity.
   - apply ceqb_eq in H. subst. split; reflexivity.
 Qed.
 
-Lemma rel_text_plain s :
-  forallb is_rel_char s = true -> no_space s = true /\ contains_c ","%char s = false.
+Lemma ver_text_plain s :
+  forallb is_ver_char s = true -> no_space s = true /\ contains_c ","%char s = false.
 Proof.
   unfold no_space, contains_c. induction s as [|c s IH]; [split; reflexivity|].
   cbn [forallb existsb]. intros H. apply andb_true_iff in H. destruct H as [Hc Hs].
-  destruct (rel_char_plain c Hc) as [H1 H2]. destruct (IH Hs) as [I1 I2].
+  destruct (ver_char_plain c Hc) as [H1 H2]. destruct (IH Hs) as [I1 I2].
   rewrite H1, H2, I1, I2. split; reflexivity.
 Qed.
 
@@ -409,14 +444,46 @@ Proof.
   reflexivity.
 Qed.
 
-Lemma in_scope_dotted t sfx :
+(* the printed form of epoch e and release t: "e!" only when e is not 0 *)
+Definition epfx (e : N) : bytes := if (e =? 0)%N then [] else dec e ++ $"!".
+Definition etext (e : N) (t : list N) : bytes := epfx e ++ dotted t.
+
+Lemma epoch_prefix_of_N e : epoch_prefix (Z.of_N e) = epfx e.
+Proof.
+  unfold epoch_prefix, epfx. destruct (N.eqb_spec e 0) as [->|H]; [reflexivity|].
+  destruct (Z.eqb_spec (Z.of_N e) 0); [lia|]. rewrite dec_z_of_N. reflexivity.
+Qed.
+
+Lemma etext_chars e t : forallb is_ver_char (etext e t) = true.
+Proof.
+  unfold etext, epfx. rewrite forallb_app.
+  assert (Hd : forallb is_ver_char (dotted t) = true).
+  { apply (forallb_impl is_rel_char); [|apply dotted_rel].
+    intros x Hx. unfold is_ver_char. rewrite Hx. reflexivity. }
+  rewrite Hd, andb_true_r. destruct (e =? 0)%N; [reflexivity|].
+  rewrite forallb_app. replace (forallb is_ver_char $"!") with true by reflexivity.
+  rewrite andb_true_r.
+  apply (forallb_impl is_digit); [|apply dec_digits].
+  intros x Hx. unfold is_ver_char, is_rel_char. rewrite Hx. reflexivity.
+Qed.
+
+Lemma etext_first e t : t <> [] -> exists d r, etext e t = d :: r /\ is_digit d = true.
+Proof.
+  intros Ht. unfold etext, epfx. destruct (e =? 0)%N.
+  - apply dotted_first. assumption.
+  - pose proof (dec_nonempty e) as Hne. pose proof (dec_digits e) as Hd.
+    destruct (dec e) as [|d r]; [congruence|]. cbn [forallb] in Hd. apply andb_true_iff in Hd.
+    exists d. eexists. split; [reflexivity|tauto].
+Qed.
+
+Lemma in_scope_etext e t sfx :
   t <> [] -> no_space sfx = true -> contains_c ","%char sfx = false ->
-  in_scope (dotted t ++ sfx) = true.
+  in_scope (etext e t ++ sfx) = true.
 Proof.
   intros Ht H1 H2. unfold in_scope.
-  destruct (rel_text_plain _ (dotted_rel t)) as [D1 D2].
+  destruct (ver_text_plain _ (etext_chars e t)) as [D1 D2].
   rewrite no_space_app, D1, H1, contains_c_app, D2, H2.
-  destruct (dotted_first t Ht) as (d & r & E & Hd). rewrite E. cbn [app].
+  destruct (etext_first e t Ht) as (d & r & E & Hd). rewrite E. cbn [app].
   rewrite (digit_not_opchar d Hd). reflexivity.
 Qed.
 
@@ -431,119 +498,130 @@ Qed.
 Lemma inc_of_N a : (a + 1 < two63)%N -> inc (Z.of_N a) = Z.of_N (a + 1).
 Proof. intros H. unfold inc. rewrite wrap64_small by lia. lia. Qed.
 
+Lemma wildcard_lower_etext e t : wildcard_lower (Z.of_N e) (map Z.of_N t) = etext e t.
+Proof. unfold wildcard_lower, etext. rewrite epoch_prefix_of_N, dotted_of_Z. reflexivity. Qed.
+
+Lemma wildcard_upper_etext e pre a :
+  (a + 1 < two63)%N ->
+  wildcard_upper (Z.of_N e) (map Z.of_N (pre ++ [a])) = etext e (pre ++ [a + 1]%N).
+Proof.
+  intros Ha. unfold wildcard_upper, etext. rewrite epoch_prefix_of_N. f_equal.
+  rewrite map_app. cbn [map]. rewrite bump_last_snoc, inc_of_N by assumption.
+  rewrite <- (dotted_of_Z (pre ++ [a + 1]%N)), map_app, map_app. reflexivity.
+Qed.
+
 Section Dotted.
   Variable vok : bytes -> bool.
   Variable vcmp : bytes -> bytes -> comparison.
   Notation rcontains := (r_contains Entry.r vok vcmp).
 
-  (* reading v.release of an accepted dotted tuple *)
-  Lemma release_of_dotted t :
-    nums_ok t -> vok (dotted t) = true -> release_of vok (dotted t) = Some (map Z.of_N t).
+  (* reading v.epoch and v.release of an accepted  e!a.b.c  *)
+  Lemma fields_of_etext e t :
+    (e < two63)%N -> nums_ok t -> vok (etext e t) = true ->
+    fields_of vok (etext e t) = Some (Z.of_N e, map Z.of_N t).
   Proof.
-    intros Ht Hv. unfold release_of. rewrite Hv.
-    destruct (rel_text_plain _ (dotted_rel t)) as [D1 _].
-    rewrite (trim_space_no_space _ D1), (parse_core_release t Ht). reflexivity.
+    intros He Ht Hv. unfold fields_of. rewrite Hv.
+    destruct (ver_text_plain _ (etext_chars e t)) as [D1 _].
+    rewrite (trim_space_no_space _ D1). unfold etext, epfx.
+    destruct (N.eqb_spec e 0) as [->|Hne].
+    - cbn [app]. rewrite (parse_core_release t Ht). reflexivity.
+    - rewrite <- app_assoc. rewrite (parse_core_epoch e t He Ht). reflexivity.
   Qed.
 
-  Lemma nums_ok_snoc0 t : nums_ok t -> nums_ok (t ++ [0%N]).
+  (* ==E!p.a.*  is  >=E!p.a, <E!p.(a+1)  for any number of segments:
+     ==1.* = [1, 2),  ==1.2.* = [1.2, 1.3),  ==1.2.3.* = [1.2.3, 1.2.4) *)
+  Theorem c05_wildcard_prefix e pre a v :
+    (e < two63)%N -> nums_ok (pre ++ [a]) -> (a + 1 < two63)%N ->
+    vok (etext e (pre ++ [a])) = true -> vok v = true ->
+    rcontains ($"==" ++ etext e (pre ++ [a]) ++ $".*") v =
+      Some (bounded vok vcmp $">=" (etext e (pre ++ [a])) $"<" (etext e (pre ++ [a + 1]%N)) v).
   Proof.
-    intros [H1 H2]. split; [destruct t; discriminate|].
-    apply Forall_app. split; [assumption|]. constructor; [reflexivity|constructor].
+    intros He Ht Ha Hok Hv.
+    rewrite (c05_wildcard_eq vok vcmp _ (Z.of_N e) (map Z.of_N (pre ++ [a])) v); try assumption.
+    - rewrite wildcard_lower_etext, wildcard_upper_etext by assumption. reflexivity.
+    - apply in_scope_etext; [destruct pre; discriminate|reflexivity|reflexivity].
+    - apply fields_of_etext; assumption.
   Qed.
 
-  (* ==x.* is  >=x.0.0, <x.1.0  -- not the documented >=x.0.0, <(x+1).0.0 *)
-  Theorem c05_wildcard_major x v :
-    (x < two63)%N -> vok (dotted [x; 0%N]) = true -> vok v = true ->
-    rcontains ($"==" ++ dec x ++ $".*") v =
-      Some (bounded vok vcmp $">=" (dotted [x; 0; 0]%N) $"<" (dotted [x; 1; 0]%N) v).
+  (* !=E!p.a.*  is  <E!p.a OR >=E!p.(a+1) : the complement of the prefix interval *)
+  Theorem c05_wildcard_ne_prefix e pre a v :
+    (e < two63)%N -> nums_ok (pre ++ [a]) -> (a + 1 < two63)%N ->
+    vok (etext e (pre ++ [a])) = true -> vok (etext e (pre ++ [a + 1]%N)) = true -> vok v = true ->
+    rcontains ($"!=" ++ etext e (pre ++ [a]) ++ $".*") v =
+      Some (negb (bounded vok vcmp $">=" (etext e (pre ++ [a])) $"<" (etext e (pre ++ [a + 1]%N)) v)).
   Proof.
-    intros Hx Hok Hv.
-    assert (Ht : nums_ok [x]) by (split; [discriminate|repeat constructor; assumption]).
-    change (dec x) with (dotted [x]).
-    rewrite (c05_wildcard_eq vok vcmp (dotted [x]) (Z.of_N x) 0%Z [] v); try assumption.
-    - rewrite dec_z_of_N. reflexivity.
-    - apply in_scope_dotted; [discriminate|reflexivity|reflexivity].
-    - rewrite (dotted_snoc0 [x]) by discriminate.
-      apply (release_of_dotted [x; 0%N]); [apply (nums_ok_snoc0 [x] Ht)|assumption].
+    intros He Ht Ha Hok Hok' Hv.
+    assert (Hs : in_scope (etext e (pre ++ [a]) ++ $".*") = true).
+    { apply in_scope_etext; [destruct pre; discriminate|reflexivity|reflexivity]. }
+    pose proof (fields_of_etext e _ He Ht Hok) as Hf.
+    rewrite (c05_wildcard_complement vok vcmp _ _ _ v Hs Hf Hv);
+      rewrite ?wildcard_lower_etext, ?wildcard_upper_etext by assumption; try assumption.
+    rewrite (c05_wildcard_prefix e pre a v He Ht Ha Hok Hv). reflexivity.
   Qed.
 
-  (* ==x.y.rest.* is  >=x.y.0, <x.(y+1).0 : components after the second are ignored *)
-  Theorem c05_wildcard_minor x y rest v :
-    nums_ok (x :: y :: rest) -> (y + 1 < two63)%N ->
-    vok (dotted ((x :: y :: rest) ++ [0%N])) = true -> vok v = true ->
-    rcontains ($"==" ++ dotted (x :: y :: rest) ++ $".*") v =
-      Some (bounded vok vcmp $">=" (dotted [x; y; 0]%N) $"<" (dotted [x; y + 1; 0]%N) v).
+  (* ~=E!p.a.b  is  >=E!p.a.b, <E!p.(a+1).0 *)
+  Theorem c05_compatible_dotted e pre a b v :
+    (e < two63)%N -> nums_ok (pre ++ [a; b]) -> (a + 1 < two63)%N ->
+    vok (etext e (pre ++ [a; b])) = true -> vok v = true ->
+    rcontains ($"~=" ++ etext e (pre ++ [a; b])) v =
+      Some (bounded vok vcmp $">=" (etext e (pre ++ [a; b])) $"<" (etext e (pre ++ [a + 1; 0]%N)) v).
   Proof.
-    intros Ht Hy Hok Hv.
-    rewrite (c05_wildcard_eq vok vcmp _ (Z.of_N x) (Z.of_N y) (map Z.of_N (rest ++ [0%N])) v);
-      try assumption.
-    - rewrite inc_of_N by assumption. rewrite !dec_z_of_N. reflexivity.
-    - apply in_scope_dotted; [discriminate|reflexivity|reflexivity].
-    - rewrite dotted_snoc0 by discriminate.
-      rewrite release_of_dotted; [reflexivity|apply nums_ok_snoc0; assumption|assumption].
-  Qed.
-
-  (* ~=p.a.b is  >=p.a.b, <p.(a+1).0 *)
-  Theorem c05_compatible_dotted pre a b v :
-    nums_ok (pre ++ [a; b]) -> (a + 1 < two63)%N ->
-    vok (dotted (pre ++ [a; b])) = true -> vok v = true ->
-    rcontains ($"~=" ++ dotted (pre ++ [a; b])) v =
-      Some (bounded vok vcmp $">=" (dotted (pre ++ [a; b])) $"<" (dotted (pre ++ [a + 1; 0]%N)) v).
-  Proof.
-    intros Ht Ha Hok Hv.
-    rewrite (c05_compatible vok vcmp _ (map Z.of_N (pre ++ [a; b]))
-               (dotted (pre ++ [a + 1; 0]%N)) v); try assumption; try reflexivity.
-    - rewrite <- (app_nil_r (dotted _)). apply in_scope_dotted; [|reflexivity|reflexivity].
+    intros He Ht Ha Hok Hv.
+    rewrite (c05_compatible vok vcmp _ (Z.of_N e) (map Z.of_N (pre ++ [a; b]))
+               (etext e (pre ++ [a + 1; 0]%N)) v); try assumption; try reflexivity.
+    - rewrite <- (app_nil_r (etext _ _)). apply in_scope_etext; [|reflexivity|reflexivity].
       destruct pre; discriminate.
-    - apply release_of_dotted; assumption.
-    - rewrite map_app. cbn [map]. rewrite compatible_upper_n. f_equal.
+    - apply fields_of_etext; assumption.
+    - rewrite map_app. cbn [map]. rewrite compatible_upper_n, epoch_prefix_of_N. f_equal.
+      unfold etext. f_equal.
       rewrite inc_of_N by assumption.
       change [a + 1; 0]%N with ([a + 1] ++ [0])%N. rewrite app_assoc.
       rewrite <- dotted_snoc0 by (destruct pre; discriminate).
-      f_equal. unfold dotted. rewrite map_app, map_map. cbn [map].
-      rewrite dec_z_of_N. f_equal. f_equal. apply map_ext. intros n. apply dec_z_of_N.
+      f_equal. rewrite <- (dotted_of_Z (pre ++ [a + 1]%N)), map_app, map_app. reflexivity.
   Qed.
 
-  (* ~=a (a single segment, an error in PEP 440) is  >=a, <(a+1).0 *)
-  Theorem c05_compatible_single a v :
-    (a + 1 < two63)%N -> vok (dec a) = true -> vok v = true ->
-    rcontains ($"~=" ++ dec a) v =
-      Some (bounded vok vcmp $">=" (dec a) $"<" (dotted [a + 1; 0]%N) v).
+  (* ~=E!a (a single segment, an error in PEP 440) is  >=E!a, <E!(a+1).0 *)
+  Theorem c05_compatible_single e a v :
+    (e < two63)%N -> (a + 1 < two63)%N -> vok (etext e [a]) = true -> vok v = true ->
+    rcontains ($"~=" ++ etext e [a]) v =
+      Some (bounded vok vcmp $">=" (etext e [a]) $"<" (etext e [a + 1; 0]%N) v).
   Proof.
-    intros Ha Hok Hv.
+    intros He Ha Hok Hv.
     assert (Ht : nums_ok [a]) by (split; [discriminate|repeat constructor; lia]).
-    change (dec a) with (dotted [a]).
-    rewrite (c05_compatible vok vcmp _ [Z.of_N a] (dotted [a + 1; 0]%N) v); try assumption; try reflexivity.
-    - rewrite <- (app_nil_r (dotted _)). apply in_scope_dotted; [discriminate|reflexivity|reflexivity].
-    - apply (release_of_dotted [a]); assumption.
-    - rewrite compatible_upper_1, inc_of_N, dec_z_of_N by assumption. reflexivity.
+    rewrite (c05_compatible vok vcmp _ (Z.of_N e) [Z.of_N a] (etext e [a + 1; 0]%N) v);
+      try assumption; try reflexivity.
+    - rewrite <- (app_nil_r (etext _ _)). apply in_scope_etext; [discriminate|reflexivity|reflexivity].
+    - apply (fields_of_etext e [a]); assumption.
+    - rewrite compatible_upper_1, epoch_prefix_of_N, inc_of_N, dec_z_of_N by assumption. reflexivity.
   Qed.
 End Dotted.
 
-(* ---------- findings, on the model's own version layer ---------- *)
+(* ---------- examples and remaining findings, on the model's own version layer ---------- *)
 
 Definition self_ok := self_vok Entry.entry.
 Definition self_cmp := self_vcmp Entry.entry.
 Definition self_contains (r v : bytes) := r_contains Entry.r self_ok self_cmp r v.
 
-(* ==1.* is >=1.0.0,<1.1.0 (documented: >=1.0.0,<2.0.0) *)
-Example wildcard_major_too_narrow : self_contains $"==1.*" $"1.5.0" = Some false.
-Proof. vm_compute. reflexivity. Qed.
-(* ==1.2.3.* is >=1.2.0,<1.3.0 (PEP 440: >=1.2.3.0,<1.2.4.0) *)
-Example wildcard_deep_too_wide : self_contains $"==1.2.3.*" $"1.2.9" = Some true.
-Proof. vm_compute. reflexivity. Qed.
-(* !=1.2.* excludes everything *)
-Example wildcard_ne_excludes_all :
-  self_contains $"!=1.2.*" $"1.5.0" = Some false /\ self_contains $"!=1.2.*" $"1.0" = Some false.
+Example wildcard_major : self_contains $"==1.*" $"1.5.0" = Some true /\ self_contains $"==1.*" $"2.0" = Some false.
 Proof. vm_compute. split; reflexivity. Qed.
-(* ~= drops the epoch from the upper bound: ~=1!2.3 is >=1!2.3,<3.0 — empty *)
-Example compatible_epoch_dropped : self_contains $"~=1!2.3" $"1!2.4" = Some false.
-Proof. vm_compute. reflexivity. Qed.
+Example wildcard_deep : self_contains $"==1.2.3.*" $"1.2.9" = Some false /\ self_contains $"==1.2.3.*" $"1.2.3.7" = Some true.
+Proof. vm_compute. split; reflexivity. Qed.
+Example wildcard_ne :
+  self_contains $"!=1.2.*" $"1.5.0" = Some true /\ self_contains $"!=1.2.*" $"1.0" = Some true
+  /\ self_contains $"!=1.2.*" $"1.2.7" = Some false.
+Proof. vm_compute. repeat split; reflexivity. Qed.
+Example compatible_epoch : self_contains $"~=1!2.3" $"1!2.4" = Some true /\ self_contains $"~=1!2.3" $"1!3.0" = Some false.
+Proof. vm_compute. split; reflexivity. Qed.
+Example wildcard_epoch : self_contains $"==1!1.*" $"1!1.5" = Some true /\ self_contains $"==1!1.*" $"1.5" = Some false.
+Proof. vm_compute. split; reflexivity. Qed.
 (* ~=1 (one segment; an error in PEP 440) is >=1,<2.0 *)
 Example compatible_single_segment : self_contains $"~=1" $"1.5" = Some true.
 Proof. vm_compute. reflexivity. Qed.
 (* an empty list element is an always-false constraint, not an error *)
 Example empty_element_never : self_contains $">=1.0," $"2.0" = Some false.
+Proof. vm_compute. reflexivity. Qed.
+(* the prefix of a wildcard may carry pre/post/dev/local parts, which are dropped: ==1.2a1.* is ==1.2.* *)
+Example wildcard_marker_dropped : self_contains $"==1.2a1.*" $"1.2.5" = Some true.
 Proof. vm_compute. reflexivity. Qed.
 (* C20 fails through ===: 1.0 and 1.0.0 are Compare-equal *)
 Example c20_arbitrary_eq_counterexample :
@@ -557,11 +635,13 @@ Print Assumptions c05_arbitrary_eq.
 Print Assumptions c05_compatible.
 Print Assumptions c05_wildcard_eq.
 Print Assumptions c05_wildcard_ne.
-Print Assumptions wildcard_ne_empty.
+Print Assumptions c05_wildcard_complement.
+Print Assumptions c05_wildcard_reject.
 Print Assumptions c20_eq.
+Print Assumptions c20_eq_text.
 Print Assumptions c20_convex.
 Print Assumptions compatible_upper_n.
-Print Assumptions c05_wildcard_major.
-Print Assumptions c05_wildcard_minor.
+Print Assumptions c05_wildcard_prefix.
+Print Assumptions c05_wildcard_ne_prefix.
 Print Assumptions c05_compatible_dotted.
 Print Assumptions c05_compatible_single.
